@@ -447,6 +447,10 @@ def judge_records(ctx, family, module, cfg, recs, shards=None, timeout=900, env=
     if shards is None:
         shards = 1 if n < 4000 else min(8, NCPU // 2)
     shards = max(shards, (n + 39999) // 40000)      # a shard of more than 40 000 records does not fit the judge's heap
+    # ... nor does one of more than ~64 MB of JSON (TLC holds the deserialised records as TLA+ values, ~20x the text)
+    probe = recs[:: max(1, n // 200)][:200]
+    avg = sum(len(json.dumps(r, default=str)) for r in probe) / max(1, len(probe))
+    shards = max(shards, int(n * avg / 64e6) + 1)
     shards = max(1, min(shards, n))
     per = (n + shards - 1) // shards
     jobs = []
